@@ -705,6 +705,7 @@ func tinyDoc15(v *g4) *g4 {
 }
 
 func runC15(r *Run, rng *Rng, tier string) error {
+	ensureSchema15()
 	nRandom := 900
 	if tier == "thorough" {
 		nRandom = 14000
@@ -774,6 +775,10 @@ func runC15(r *Run, rng *Rng, tier string) error {
 	}
 	for i := 0; i < nTyped; i++ {
 		runOne15(r, genTyped15(rng.Fork()), nil)
+	}
+	// primitive set lists of integers / booleans (custom kind Bar, see c15fam.go)
+	for i := 0; i < nTyped/4; i++ {
+		runOne15(r, genSetList15(rng.Fork()), nil)
 	}
 	r.header += internHeader()
 	r.shard = 150
@@ -934,6 +939,7 @@ func replayC15(path string) (bool, string, error) {
 	if err := json.Unmarshal(data, &rp); err != nil {
 		return false, "", err
 	}
+	ensureSchema15()
 	cls, out, msg := exec15(rp.Case)
 	res := "<nil>"
 	if out != nil {
